@@ -717,6 +717,11 @@ def m_hashset(c):
     c.ret(Int.boolean())
 
 
+def _std_structural(v):
+    p = getattr(v, "path", "")
+    return p in ("std::option::Option", "std::result::Result", "tuple", "()")
+
+
 def _own_eq_body(c):
     """the local `<T as PartialEq>::eq` body for the Self type of this `ne` call, if the program has one"""
     args = (c.callee or {}).get("args") or []
@@ -730,8 +735,10 @@ def _own_eq_body(c):
     p = strip_generics(ty.get("path", ""))
     for key, b in c.I.prog.bodies.items():
         if key.endswith(" as std::cmp::PartialEq>::eq") and b.promoted_index is None:
-            inner = key[1:key.index(" as ")]
-            if strip_generics(inner) == p or strip_generics(inner).split("<")[0] == p:
+            inner = strip_generics(key[1:key.index(" as ")]).split("<")[0]
+            # types of another analysed crate are recorded under their crate-relative path
+            rel = p.split("::", 1)[1] if ("::" in p and p.split("::", 1)[0] in c.I.prog.crates) else p
+            if inner == p or inner == rel:
                 return b
     return None
 
@@ -768,6 +775,12 @@ def m_eq(c):
         v, _, d = c.I.compare(c.st, "Eq" if c.name.endswith("eq") else "Ne", a, la, b, lb)
         c.ret(v, defn=d)
         return
+    # std's own equality on Option / Result / tuples is structural; a type of the program with an eq of its own was handled above
+    if isinstance(a, (Enum, Struct)) and isinstance(b, (Enum, Struct)) and _std_structural(a) and _std_structural(b):
+        r = abs_eq(c, a, b)
+        if r is not None:
+            c.ret(Int.const(int(r) if c.name.endswith("eq") else 1 - int(r), 1, False))
+            return
     c.ret(Int.boolean())
 
 
@@ -1352,3 +1365,91 @@ def m_find_range(c):
     for n, val in enumerate(outs):
         s = c.st if n == len(outs) - 1 else c.fork()
         c.ret(val, st=s)
+
+
+# ---------------------------------------------------------------------------- structural equality of abstract values; contains; zip
+def _same_type(c, p, q):
+    """type paths are the same, possibly one of them written relative to its (analysed) crate"""
+    if p == q:
+        return True
+    def rel(x):
+        return x.split("::", 1)[1] if ("::" in x and x.split("::", 1)[0] in c.I.prog.crates) else x
+    return rel(p) == rel(q)
+
+
+def abs_eq(c, a, b, depth=0):
+    """True / False when `a == b` is decided for every pair of concrete values the two abstract values stand for (derived, structural
+    equality: enums by variant and payload, tuples and structs field by field, integers by value); None when undecided"""
+    for _ in range(3):
+        if isinstance(a, Ref) and a.cell is not None:
+            a = c.I.read_loc(c.st, (a.cell, a.path))
+        if isinstance(b, Ref) and b.cell is not None:
+            b = c.I.read_loc(c.st, (b.cell, b.path))
+    if depth > 4:
+        return None
+    if isinstance(a, Int) and isinstance(b, Int):
+        if a.is_const() and b.is_const():
+            return a.lo == b.lo
+        if a.hi < b.lo or b.hi < a.lo:
+            return False
+        return None
+    if isinstance(a, Enum) and isinstance(b, Enum) and _same_type(c, a.path, b.path):
+        common = set(a.variants) & set(b.variants)
+        if not common:
+            return False
+        if len(a.variants) == 1 and len(b.variants) == 1:
+            i = next(iter(common))
+            pa, pb = a.variants[i], b.variants[i]
+            if len(pa) != len(pb):
+                return None
+            res = True
+            for x, y in zip(pa, pb):
+                r = abs_eq(c, x, y, depth + 1)
+                if r is False:
+                    return False
+                if r is None:
+                    res = None
+            return res
+        # several variants possible: unequal for sure when the payloads of every common variant are
+        for i in common:
+            pa, pb = a.variants[i], b.variants[i]
+            if len(pa) != len(pb) or not pa:
+                return None
+            if not any(abs_eq(c, x, y, depth + 1) is False for x, y in zip(pa, pb)):
+                return None
+        return False
+    if isinstance(a, Struct) and isinstance(b, Struct) and a.path == b.path and len(a.fields) == len(b.fields):
+        res = True
+        for x, y in zip(a.fields, b.fields):
+            r = abs_eq(c, x, y, depth + 1)
+            if r is False:
+                return False
+            if r is None:
+                res = None
+        return res
+    return None
+
+
+@model("core::slice::contains")
+def m_slice_contains(c):
+    """[T]::contains(&x): true when an element known by position (within the certain length) equals x, false when no element can equal x"""
+    v, _ = c.arg(0)
+    arr, loc = arr_at(c, v)
+    x, _ = c.arg(1)
+    if arr is None:
+        c.ret(Int.boolean())
+        return
+    may = False
+    ln = arr.len
+    for k, cv in sorted((arr.cells or {}).items()):
+        r = abs_eq(c, cv, x)
+        if r is True and k < ln.lo:
+            c.ret(Int.const(1, 1, False))
+            return
+        if r is not False and k < ln.hi:
+            may = True
+    n_cells = len(arr.cells or {})
+    if ln.hi > n_cells and not arr.elem.is_bot():
+        if abs_eq(c, arr.elem, x) is not False:
+            may = True
+    c.ret(Int.boolean() if may else Int.const(0, 1, False))
